@@ -212,6 +212,12 @@ class SX:
     def contains(self, y, autoescape=False, escape=None):
         return SX("like", "infix", self, _lift(y, self), autoescape=autoescape, type_=_sa.Boolean())
 
+    def like(self, other, escape=None):
+        return SX("like_raw", self, _lift(other, self), escape, type_=_sa.Boolean())
+
+    def ilike(self, other, escape=None):
+        raise Unsupported("ILIKE")
+
     def cast(self, t):
         return cast(self, t)
 
@@ -505,10 +511,22 @@ def den(x, level="row") -> NV:
         return acc
     if k == "cast":
         return _den_cast(x, level)
+    if k == "like_raw":
+        a, p, esc = x.args
+        if p.kind != "literal" or not isinstance(p.args[0], str):
+            raise Unsupported("LIKE with a non-constant pattern")
+        _ax("SQL: x LIKE p [ESCAPE e]: % matches any sequence, _ any single character, e makes the next character literal; null iff x is null")
+        return N.lift(lambda s: z3.InRe(s, like_regex(p.args[0], esc)), den(a, level))
     if k == "like":
         mode, a, p = x.args
         if not x.kw.get("autoescape"):
             raise Unsupported("LIKE without autoescape: pattern metacharacters are interpreted")
+        if p.kind == "literal" and isinstance(p.args[0], str):
+            _ax("sqlalchemy: startswith/endswith/contains(p, autoescape=True) render x LIKE <p with %, _ and / escaped by '/'> (|| '%') ESCAPE '/'")
+            _ax("SQL: x LIKE p [ESCAPE e]: % matches any sequence, _ any single character, e makes the next character literal; null iff x is null")
+            esc = "".join("/" + ch if ch in "%_/" else ch for ch in p.args[0])
+            pat = {"prefix": esc + "%", "suffix": "%" + esc, "infix": "%" + esc + "%"}[mode]
+            return N.lift(lambda s: z3.InRe(s, like_regex(pat, "/")), den(a, level))
         _ax("sqlalchemy+SQL: x.startswith/endswith/contains(p, autoescape=True) is the literal prefix/suffix/substring test (case-sensitivity of the engine's LIKE aside), null iff an operand is null")
         f = {"prefix": lambda s, q: z3.PrefixOf(q, s), "suffix": lambda s, q: z3.SuffixOf(q, s), "infix": lambda s, q: z3.Contains(s, q)}[mode]
         return N.lift(f, den(a, level), den(p, level))
@@ -526,6 +544,55 @@ def den(x, level="row") -> NV:
     if k == "text":
         raise Unsupported("value of raw SQL text")
     raise Unsupported(f"SQL model: {k}")
+
+
+def like_regex(pattern: str, escape):
+    """z3 regular expression of a concrete LIKE pattern"""
+    RS = z3.ReSort(STR)
+    parts = []
+    i = 0
+    lit = ""
+
+    def flush():
+        nonlocal lit
+        if lit:
+            parts.append(z3.Re(z3.StringVal(lit)))
+            lit = ""
+
+    while i < len(pattern):
+        ch = pattern[i]
+        if escape and ch == escape:
+            if i + 1 < len(pattern):
+                lit += pattern[i + 1]
+                i += 2
+                continue
+            raise Unsupported("LIKE pattern ends with the escape character (engine-dependent error)")
+        if ch == "%":
+            flush()
+            parts.append(z3.Full(RS))
+        elif ch == "_":
+            flush()
+            parts.append(z3.AllChar(RS))
+        else:
+            lit += ch
+        i += 1
+    flush()
+    if not parts:
+        return z3.Re(z3.StringVal(""))
+    if len(parts) == 1:
+        return parts[0]
+    return z3.Concat(*parts)
+
+
+def contains_kind(x, kinds):
+    """does the SQL term contain a node of one of the given kinds (raw text, custom operators ...)"""
+    if not isinstance(x, SX):
+        if isinstance(x, (tuple, list)):
+            return any(contains_kind(y, kinds) for y in x)
+        return False
+    if x.kind in kinds:
+        return True
+    return any(contains_kind(a, kinds) for a in x.args)
 
 
 def _den_bin(x, level):
